@@ -14,8 +14,9 @@ Msgs == IF layer = "raw"
                  l \in Lens, k \in 0..(MaxFds + 1), c \in {<<>>, <<7, 8, 9>>} }
         ELSE { [id |-> nops + 1, len |-> v, val |-> v, nfds |-> k, fds |-> Fds(k), cred |-> <<>>, typ |-> t] :
                  v \in Vals, k \in {0, MaxFds, MaxFds + 1}, t \in Types }
-Reqs == IF layer = "raw" THEN { [rbuf |-> b, want |-> "M"] : b \in Rbufs }
-        ELSE { [rbuf |-> 0, want |-> w] : w \in {"M", "X"} }
+Frees == {-1, 0, 1}
+Reqs == IF layer = "raw" THEN { [rbuf |-> b, want |-> "M", free |-> f] : b \in Rbufs, f \in Frees }
+        ELSE { [rbuf |-> 0, want |-> w, free |-> f] : w \in {"M", "X"}, f \in Frees }
 
 MInit == Init /\ nops = 0
 MNext == /\ nops < MaxOps
